@@ -59,5 +59,15 @@ def build(tier, seed):
                 ks.append(kk)
     except Exception as e:
         ks.append(Kernel(name='calling_convention', error='build-failed: %s' % e))
+    # every analysis a code-generation consumer can ask for has been computed (no unwrap on a skipped analysis); kernel shared with C08
+    try:
+        from props import c08
+        for kk in c08.build(tier, seed):
+            if kk.name == 'gates':
+                kk.name = 'analysis_availability'
+                kk.harnesses = [h for h in kk.harnesses if h.name == 'every_analysis_a_consumer_can_ask_for_has_been_computed']
+                ks.append(kk)
+    except Exception as e:
+        ks.append(Kernel(name='analysis_availability', error='build-failed: %s' % e))
     ks.append(kernel_or_error('error_paths', errors))
     return ks
